@@ -57,7 +57,8 @@ def share_equal_instances(obj, attrs):
             bucket = seen.setdefault(type(v), [])
             for o in bucket:
                 try:
-                    if o is not v and o == v:
+                    # (== alone is too weak: 1 == True, 3 == 3.0 - the reprs must agree too)
+                    if o is not v and o == v and repr(o) == repr(v):
                         n[0] += 1
                         return o
                 except Exception:
